@@ -297,7 +297,7 @@ def record(tabs, work, seed, c09=False, name="tab", rows=None, nsamples=2, max_e
     for k, rs in enumerate(jobs):
         if rs:
             specs.append({"out": os.path.join(work, "%s.%d.json" % (name, k)), "tables": tabs, "rows": rs,
-                          "nsamples": nsamples, "seed": seed + k, "c09": c09, "eqsets": eqsets})
+                          "nsamples": nsamples, "seed": seed + k, "c09": c09, "eqsets": eqsets, "warm": k % 2 == 1})
     run_driver("tables.py", specs, work, name=name)
     files, cur, cur_n, fno = [], [], 0, 0
 
